@@ -39,7 +39,7 @@ fn to_f64(&self) -> Approximation<f64, Sign>
             let ghost e = shift as int; let ghost gn = rs_num(xn, e); let ghost gd = rs_den(xd, e);
             proof {
                 lemma_quot_bounds(xn, xd, num_bits as nat, den_bits as nat, 52, e);
-                lemma2_to64(); lemma2_to64_rest();
+                lemma_pow2_consts();
                 if e >= 0 { lemma_pow2_pos(e as nat); } else { lemma_pow2_pos((-e) as nat); }
             } @*/
         let (num, den) = if shift >= 0 {
@@ -61,13 +61,7 @@ fn to_f64(&self) -> Approximation<f64, Sign>
         // then construct the
         if shift >= 1024 {
             /*@ proof {
-                // x >= 2^52 * 2^shift >= 2^1024
-                let pe = pow2(e as nat) as int;
-                lemma_pow2_mono(972, e as nat);
-                lemma_pow2_adds(52, 972);
-                assert(0x10000000000000 * (xd * pe) >= pow2(1024) * xd) by (nonlinear_arith)
-                    requires pe >= pow2(972), pow2(1024) == 0x10000000000000 * pow2(972), xd > 0;
-                lemma_overflow_q(fmt64(), neg, xn, xd, 1024);
+                lemma_ratio_overflow(fmt64(), neg, xn, xd, e);
             } @*/
             // max f64 = 2^1024 × (1 − 2^−53)
             Inexact(sign * f64::INFINITY, sign)
@@ -82,12 +76,8 @@ fn to_f64(&self) -> Approximation<f64, Sign>
             /*@ proof { lemma_rq_man(gn, gd); } @*/
             let (man, r) = num.unsigned_abs().div_rem(&den);
             /*@ proof {
-                // 2^52 <= quotient < 2^54
+                lemma_quot_fits(gn, gd, 54);
                 assert(man.v() == gn / gd && r.v() == gn % gd);
-                let qd = man.v() * gd;
-                assert(gd * man.v() == qd) by (nonlinear_arith) requires qd == man.v() * gd;
-                assert(man.v() < 0x40000000000000) by (nonlinear_arith) requires qd == man.v() * gd, qd <= gn, gn < 0x40000000000000 * gd, gd > 0;
-                assert(man.v() >= 0) by (nonlinear_arith) requires qd == man.v() * gd, qd + gd > gn, gn >= 0, gd > 0;
             } @*/
             let man: u64 = man.try_into().unwrap();
 
@@ -105,7 +95,7 @@ fn to_f64(&self) -> Approximation<f64, Sign>
             }
             .and_then(|man| /*@ -> (o: Approximation<f64, Sign>)
                 requires man <= 0x40000000000000
-                ensures ap64_ok(o, sign == Sign::Negative, sc_num(man as int, shift as int), sc_den(shift as int)) @*/
+                ensures enc_args64(o, sign, man, shift) @*/
                 f64::encode(sign * man as i64, shift as i16))
         }
         /*@ proof {
@@ -115,18 +105,9 @@ fn to_f64(&self) -> Approximation<f64, Sign>
                 let fr = fields64(ap_val(ret));
                 lemma_pow2_pos(52);
                 vstd::arithmetic::div_mod::lemma_mod_bound(ap_val(ret).to_bits_spec() as int, 0x10_0000_0000_0000);
-                if gn % gd == 0 {
-                    // single rounding of the exact quotient a * 2^shift == x
-                    lemma_value_from_quot(xn, xd, e, a);
-                    lemma_rne_same_value(fmt64(), neg, sc_num(a, e), sc_den(e), xn, xd, fr, ap_exact(ret), ap_pos(ret));
-                } else {
-                    if !rne_ok(fmt64(), neg, sc_num(a, e), sc_den(e), fr, true, true) {
-                        // encode was inexact too: the excluded double-rounding region
-                        assert(enc_inexact_w(fmt64(), neg, a, e, fr, ap_pos(ret)));
-                        assert(false);
-                    }
-                    lemma_two_stage(fmt64(), neg, xn, xd, e, a, fr, true);
-                }
+                assert forall|o: Approximation<f64, Sign>| #[trigger] enc_args64(o, sign, a as u64, shift) implies
+                    ap64_ok(o, neg, sc_num(a, e), sc_den(e)) by { lemma_enc_args64(o, sign, a as u64, shift); }
+                lemma_ratio_final(fmt64(), neg, xn, xd, e, fr, ap_exact(ret), ap_pos(ret));
             }
         } @*/
     }
